@@ -938,8 +938,9 @@ func (ev *evalCtx) call(x *ast.CallExpr, want types.Type) (string, types.Type, e
 		}
 		return ite(cnd, a, b), ta, nil
 	case "forall", "exists":
-		if err := argc(4); err != nil {
-			return "", nil, err
+		// forall(i, lo, hi, body [, trigger]) : optional instantiation trigger term
+		if len(x.Args) != 4 && len(x.Args) != 5 {
+			return "", nil, fmt.Errorf("%s expects 4 or 5 arguments", id.Name)
 		}
 		v, ok := x.Args[0].(*ast.Ident)
 		if !ok {
@@ -973,6 +974,13 @@ func (ev *evalCtx) call(x *ast.CallExpr, want types.Type) (string, types.Type, e
 		}
 		rng := fmt.Sprintf("(and (bvsle %s %s) (bvslt %s %s))", lo, qv, qv, hi)
 		if id.Name == "forall" {
+			if len(x.Args) == 5 {
+				trig, _, err := n.expr(x.Args[4], nil)
+				if err != nil {
+					return "", nil, err
+				}
+				return fmt.Sprintf("(forall ((%s (_ BitVec 64))) (! (=> %s %s) :pattern (%s)))", qv, rng, body, trig), boolT, nil
+			}
 			return fmt.Sprintf("(forall ((%s (_ BitVec 64))) (=> %s %s))", qv, rng, body), boolT, nil
 		}
 		return fmt.Sprintf("(exists ((%s (_ BitVec 64))) (and %s %s))", qv, rng, body), boolT, nil
@@ -1052,6 +1060,27 @@ func (ev *evalCtx) call(x *ast.CallExpr, want types.Type) (string, types.Type, e
 			return "", nil, fmt.Errorf("eq: sequence of unknown length")
 		}
 		return fmt.Sprintf("(and (= %s %s) (forall ((%s (_ BitVec 64))) (=> (and (bvsle #x0000000000000000 %s) (bvslt %s %s)) (= %s %s))))", la, lb, qv, qv, qv, la, seqAt(a, qv), seqAt(b, qv)), boolT, nil
+	case "fresh":
+		// fresh(x): x (pointer or slice) refers to an object allocated during this call
+		// (or is nil) - it cannot alias anything the caller passed in
+		if err := argc(1); err != nil {
+			return "", nil, err
+		}
+		a, t, err := ev.expr(x.Args[0], nil)
+		if err != nil {
+			return "", nil, err
+		}
+		a0 := ev.c.hOf(ev.heap, "alloc")
+		if ev.old != nil {
+			a0 = ev.c.hOf(ev.old.heap, "alloc")
+		}
+		switch ev.c.te.sortOf(t) {
+		case "Loc":
+			return fmt.Sprintf("(or (= %s NullLoc) (>= (base %s) %s))", a, a, a0), boolT, nil
+		case "Slice":
+			return fmt.Sprintf("(or (= (s_arr %s) NullLoc) (>= (base (s_arr %s)) %s))", a, a, a0), boolT, nil
+		}
+		return "", nil, fmt.Errorf("fresh of %s", t)
 	case "samebase":
 		// samebase(a, b): a and b (pointers or slices) refer into the same allocation
 		if err := argc(2); err != nil {
